@@ -92,7 +92,9 @@ const INTERNAL_NAMES: [&str; 15] =
     ["iterator", "default", "func", "mapper", "res", "con", "value", "array", "i", "len", "iter", "acc", "curr", "function", "val"];
 
 /// identifiers that merely begin with a word of the language (a type name or a keyword)
-pub const KEYWORD_PREFIXED_NAMES: [&str; 46] = [
+pub const KEYWORD_PREFIXED_NAMES: [&str; 49] = [
+    // (and the underscore, alone and leading: an identifier like any other)
+    "_", "__", "_1",
     "ifx", "iffy_", "matchx", "inx", "modx", "elsex",
     "integer", "int_v", "floaty", "string_of", "boolean", "anything", "any_", "mutable", "structure", "iffy", "elsewhere", "matches", "returned",
     "looped", "fore", "breaker", "importer", "modulo", "truely", "falsey", "in_", "whiles", "continued", "format", "international", "return_",
